@@ -124,7 +124,10 @@ def main():
             print(b["log"][-3000:], b["driver_log"][-2000:])
         from harness import props
         props.warm(a.warm, seed)
-        return 0 if (rc == 0 and b["ok"]) else 1
+        # a proof file that does not compile is reported by the checks that depend on it (deps_failed); the setup itself
+        # fails only when the translators, the shared library or the extracted driver are broken
+        base_broken = [f for f in b["failed"] if f.startswith(("Base/", "Gen/"))]
+        return 0 if (rc == 0 and b["driver_ok"] and not base_broken) else 1
     pid = a.prop
     if pid not in ALL:
         print("usage: ./check Cxx [--tier quick|thorough] [--replay file]")
